@@ -52,7 +52,7 @@ theorem obsx_local (r : String) : Local (fun w => DH.step w ["obsx", r]) (fpRead
 def fpAll : FP := FP.static none' (fun _ => True) (fun _ => True) none'
 
 theorem Local.readAll {O : Type} (k : Array Doc → Array Ref → O) : Local (fun w => (k w.docs w.refs, w)) fpAll :=
-  Local.of_static ⟨fun _ h => h.elim, fun _ h => h.elim⟩ (fun _ _ _ => rfl) (fun _ _ _ => rfl) (fun _ => ⟨rfl, rfl, rfl, rfl⟩)
+  Local.of_static ⟨fun _ h => h.elim, fun _ h => h.elim⟩ (fun _ _ _ => rfl) (fun _ _ _ => rfl) (fun _ => ⟨rfl, rfl, rfl, rfl, rfl⟩)
     (fun w w' hd hr => by
       have e1 : w.docs = w'.docs := Array.ext_getElem? (fun j => hd j trivial)
       have e2 : w.refs = w'.refs := Array.ext_getElem? (fun j => hr j trivial)
